@@ -1,5 +1,7 @@
 (* C03 -- Core language constructs render according to the documented semantics.
-   Statements only; proofs in MJ.C03.Proofs. *)
+   Statements only; proofs in MJ.C03.Proofs.  The reference interpreter Lang/Interp.v is the
+   specification the engine is compared with; the theorems below are the scoping and loop
+   bookkeeping clauses of the property, proved of that semantics for every program. *)
 From MJ Require Import Common.Base Lang.Syntax Lang.Meta Lang.Interp C03.Proofs.
 
 (* loop.index, index0, revindex, revindex0, first, last and length describe the position [i] in a
@@ -14,4 +16,67 @@ Theorem loop_fields_describe_iteration : forall i n, 0 <= i < n ->
   loop_attr i n A_last = Some (VBool (i =? n - 1)).
 Proof. exact loop_fields_proof. Qed.
 
+(* evaluating an expression (macro calls included) never changes any variable scope *)
+Theorem expressions_do_not_assign : forall c fuel esc s e v s',
+  eval c fuel esc s e = Ok (v, s') -> s_env s' = s_env s.
+Proof. exact eval_env_proof. Qed.
+
+(* assignments made inside a macro are invisible to the caller *)
+Theorem macro_assignments_invisible : forall c fuel esc s mc cl args kw v s',
+  call_macro c fuel esc s mc cl args kw = Ok (v, s') -> s_env s' = s_env s.
+Proof. exact call_macro_env_proof. Qed.
+
+(* any statement can only change the innermost scope; all enclosing scopes stay as they were *)
+Theorem statements_touch_only_innermost_scope : forall c fuel esc s t sg s',
+  exec c fuel esc s t = Ok (sg, s') ->
+  tl (s_env s') = tl (s_env s) /\ length (s_env s') = length (s_env s).
+Proof. exact exec_R_proof. Qed.
+
+(* assignments inside a with block are invisible outside: the whole scope stack is as before *)
+Theorem with_assignments_invisible : forall c fuel esc s binds body sg s',
+  exec c fuel esc s (SWith binds body) = Ok (sg, s') -> s_env s' = s_env s.
+Proof. exact with_scoped_proof. Qed.
+
+(* assignments inside a for loop (target, loop variable, body) are invisible outside *)
+Theorem loop_assignments_invisible : forall c fuel esc s tgt iter flt body rc sg s',
+  exec c fuel esc s (SFor tgt iter flt body None rc) = Ok (sg, s') -> s_env s' = s_env s.
+Proof. exact for_scoped_proof. Qed.
+
+(* a set statement binds the name in the current scope (template level included) and nothing else changes *)
+Theorem set_persists : forall c fuel esc s x e sg s', s_env s <> [] ->
+  exec c fuel esc s (SSet x e) = Ok (sg, s') ->
+  exists v s1 f r, eval c (pred fuel) esc s e = Ok (v, s1) /\ s_env s' = f :: r /\ assoc x (f_locals f) = Some v
+                   /\ r = tl (s_env s).
+Proof. exact set_persists_proof. Qed.
+
+(* an if-branch runs in the scope of the if itself: its assignments persist *)
+Theorem if_branch_runs_in_place : forall c fuel esc s cnd body els v s1,
+  eval c fuel esc s cnd = Ok (v, s1) -> u_is_true (c_mode c) v = Ok true ->
+  exec c (S fuel) esc s (SIf [(cnd, body)] els) = exec_list c fuel esc s1 body.
+Proof. exact if_in_place_proof. Qed.
+
+(* non-vacuity: a program with a loop, a with block, a macro and set statements runs and
+   produces the documented output; the scoping theorems apply to each of its statements *)
+Example scoping_witness :
+  let x := 100 in let y := 101 in let mname := 102 in
+  let prog := [SSet x (EConst (LInt 1));
+               SFor (TVar y) (EList [EConst (LInt 7); EConst (LInt 8)]) None
+                    [SSet x (EVar y); SEmit (EVar x); SEmit (EAttr (EVar N_loop) A_index)] None false;
+               SWith [(x, EConst (LInt 5))] [SEmit (EVar x)];
+               SMacro mname [] [] [SSet x (EConst (LInt 9)); SEmit (EVar x)];
+               SEmit (ECall mname [] []);
+               SEmit (EVar x)] in
+  match Interp.run (mkCfg Lenient [] false) 50 prog with
+  | Ok s => output_of s = [55; 49; 56; 50; 53; 57; 49]     (* "71" "82" "5" "9" "1" *)
+  | _ => False
+  end.
+Proof. vm_compute. reflexivity. Qed.
+
 Print Assumptions loop_fields_describe_iteration.
+Print Assumptions expressions_do_not_assign.
+Print Assumptions macro_assignments_invisible.
+Print Assumptions statements_touch_only_innermost_scope.
+Print Assumptions with_assignments_invisible.
+Print Assumptions loop_assignments_invisible.
+Print Assumptions set_persists.
+Print Assumptions if_branch_runs_in_place.
